@@ -146,7 +146,20 @@ func profiles() map[string]profile {
 	p.maxClients = 2
 	ps["order"] = p
 
+	p = baseProfile("throttle") // governed requests: resets with access patterns, answers in any order, leavers
+	p.rids = []string{"m.a", "m.b", "m.c", "c.a", "m.self", "cid.{cid}.m", "m.pq"}
+	p.refThrottle = []int{0, 1, 2}
+	p.rstThrottle = []int{1, 1, 2, 3}
+	p.wReset, p.wToken, p.wDisconnect, p.wRequest, p.wAnswer = 14, 3, 3, 30, 34
+	p.eventKinds = []string{"custom", "reaccess", "change"}
+	p.reqKinds = []string{"subscribe", "subscribe", "subscribe", "unsubscribe", "unsubscribe"}
+	p.denyPct, p.getFailPct, p.malformedPct = 10, 5, 0
+	p.maxClients = 3
+	ps["throttle"] = p
+
 	p = baseProfile("malformed")
+	p.rids = []string{"c.a", "c.b", "m.a", "m.b", "q.c?q=a"}
+	p.wEvent = 30
 	p.malformedPct = 35
 	p.wRawFrame = 8
 	p.eventKinds = []string{"change", "add", "remove", "custom", "badkind", "badpayload", "badpayload", "query"}
@@ -155,15 +168,16 @@ func profiles() map[string]profile {
 }
 
 type gen struct {
-	r      *rng
-	w      *world
-	p      profile
-	u      *universe
-	tokN   int
-	qeN    int
-	callN  int
-	qeSnap map[string]bool
-	kinds  map[string]int
+	r         *rng
+	w         *world
+	p         profile
+	u         *universe
+	tokN      int
+	qeN       int
+	callN     int
+	qeSnap    map[string]bool
+	pqVariant uint64
+	kinds     map[string]int
 }
 
 func pick[T any](r *rng, xs []T) T { return xs[r.intn(len(xs))] }
@@ -225,11 +239,15 @@ func (g *gen) clientRequest() {
 		}
 	}
 	if strings.HasPrefix(rid, "m.pq") {
-		// a plain resource asked with a query is cached under the plain name as well
-		if c.idx%2 == 0 {
+		// a plain resource asked with a query is cached under the plain name as well; one client
+		// sticks to one spelling (one of them carries the {cid} tag in the query part)
+		switch (c.idx + int(g.pqVariant)) % 3 {
+		case 0:
 			rid = "m.pq?q=a"
-		} else {
+		case 1:
 			rid = "m.pq"
+		default:
+			rid = "m.pq?o={cid}"
 		}
 	}
 	g.kinds["req:"+kind]++
@@ -539,6 +557,19 @@ func (g *gen) event() {
 	case "badpayload":
 		var bad string
 		ev := "change"
+		if d.kind == 'c' && g.r.chance(1, 2) {
+			// boundary indexes of the current collection
+			n := 0
+			if tr := w.truth.get(name, ""); tr != nil {
+				n = len(tr.coll)
+			}
+			if g.r.chance(1, 2) {
+				w.publish("event."+name+".remove", fmt.Sprintf(`{"idx":%d}`, n))
+			} else {
+				w.publish("event."+name+".add", fmt.Sprintf(`{"idx":%d,"value":1}`, n+1))
+			}
+			return
+		}
 		if d.kind == 'c' {
 			ev = pick(g.r, []string{"add", "remove"})
 			bad = pick(g.r, []string{`{"idx":-1,"value":1}`, `{"idx":99,"value":1}`, `{"idx":"0"}`, `[]`, `not json`, `{"idx":0,"value":{"rid":""}}`,
@@ -599,6 +630,9 @@ func (g *gen) reset() {
 	}
 	for i := g.r.intn(3); i > 0; i-- {
 		as = append(as, pick(g.r, pats))
+	}
+	if g.p.name == "throttle" {
+		as = append(as, ">")
 	}
 	if len(rs)+len(as) == 0 {
 		rs = []string{">"}
@@ -733,6 +767,7 @@ func runHistory(p profile, seed uint64, index int, keepSteps bool, wantSnap bool
 		fmt.Fprintf(crashLog, "# profile=%s seed=%d history=%d\n# config referenceThrottle=%d resetThrottle=%d\n", p.name, seed, index, cfg.referenceThrottle, cfg.resetThrottle)
 	}
 	g := &gen{r: r, w: w, p: p, u: u, kinds: map[string]int{}}
+	g.pqVariant = r.next() % 3
 	w.steps = append(w.steps, stepRec{Stim: fmt.Sprintf("# config referenceThrottle=%d resetThrottle=%d", cfg.referenceThrottle, cfg.resetThrottle)})
 	g.connect()
 	for i := 0; i < p.steps && w.stall == ""; i++ {
